@@ -95,6 +95,8 @@ def fam_sizes(rng, n, kinds=('upload', 'copy', 'download')):
                 ts += [{'kind': 'upload', 'src': 'path', 'size': size},
                        {'kind': 'upload', 'src': 'seekable', 'size': size,
                         'offset': rng.choice([0, 1, 3])},
+                       {'kind': 'upload', 'src': 'seekable-noattr', 'size': size,
+                        'offset': rng.choice([1, 2])},
                        {'kind': 'upload', 'src': 'nonseekable', 'size': size},
                        {'kind': 'upload', 'src': 'nonseekable', 'size': size,
                         'src_reads': rng.choice([[1], [2, 1], [3], [1, 3]])}]
@@ -176,6 +178,7 @@ def fam_contention(rng, n):
     submission threads: the adversarial configurations of C10/C11."""
     jobs = []
     dl = {'kind': 'download', 'dst': 'nonseekable', 'size': 7}
+    ups1 = {'kind': 'upload', 'src': 'nonseekable', 'size': 3}
     up = {'kind': 'upload', 'src': 'nonseekable', 'size': 7}
     ups = {'kind': 'upload', 'src': 'seekable', 'size': 6, 'offset': 1}
     cp = {'kind': 'copy', 'size': 5}
@@ -189,7 +192,16 @@ def fam_contention(rng, n):
         ([up, up, up], {'S': 1, 'R': 2, 'up_chunks': 2, 'RQ': 1}),
         ([cp, dp, cp, dl], {'S': 1, 'R': 3}),
         ([dp, dp, cp], {'S': 2, 'R': 3, 'IOQ': 1}),
+        ([ups1, ups1, ups1, ups1, ups1], {'S': 1, 'R': 1, 'up_chunks': 1}),
+        ([ups1, ups1, ups1, ups1], {'S': 2, 'R': 2, 'up_chunks': 1}),
     ]
+    slow = {'name': 'contention-slow-lowest', 'cfg': {'R': 3, 'down_chunks': 3, 'IOQ': 1, 'io_chunk': 1},
+            'transfers': [copy.deepcopy(dl)],
+            'streams': [{'x': 0, 'range_start': 0, 'reads': [1, 1, 1]}]}
+    jobs += S.schedules(slow, n, rng)
+    slow2 = copy.deepcopy(slow)
+    slow2['cfg'] = {'R': 4, 'down_chunks': 4, 'IOQ': 2, 'io_chunk': 1}
+    jobs += S.schedules(slow2, n, rng)
     for ts, cfg in confs:
         sc = {'name': 'contention', 'transfers': copy.deepcopy(ts), 'cfg': cfg}
         jobs += S.schedules(sc, n, rng)
@@ -212,6 +224,45 @@ def fam_cancel_all(rng, n):
     return ('cancel-all', jobs)
 
 
+def fam_failing_abort(rng, n):
+    """A multipart upload/copy that fails (or is cancelled) and whose
+    AbortMultipartUpload cleanup request fails too."""
+    jobs = []
+    for name in S.MULTIPART:
+        sc0 = S.base(name)
+        steps, ncalls = S.probe(sc0)
+        ab = {'on': 's3', 'op': 'AbortMultipartUpload', 'nth': 1, 'x': 0}
+        for seq in range(2, ncalls + 1):
+            sc = copy.deepcopy(sc0)
+            sc['faults'] = [{'on': 's3', 'seq': seq, 'x': 0}, ab]
+            jobs += S.schedules(sc, n, rng)
+        for g in range(10, steps, 8):
+            sc = copy.deepcopy(sc0)
+            sc['faults'] = [ab]
+            sc['cancel'] = {'how': 'future', 'x': 0, 'gate': g}
+            jobs += S.schedules(sc, 1, rng)
+    return ('failing-abort-cleanup', jobs)
+
+
+def fam_small_queues_faults(rng, n):
+    """Tiny stage queues combined with failing / cancelled transfers: a
+    submitter must block, not fail, while a stage is full."""
+    jobs = []
+    for name in ('dl-path-mp', 'dl-seek-mp', 'dl-ns-mp', 'up-ns-mp', 'copy-mp'):
+        for cfg in ({'IOQ': 1, 'R': 2}, {'IOQ': 1, 'RQ': 1, 'R': 2}, {'RQ': 1, 'R': 1, 'IOQ': 2}):
+            sc0 = S.base(name, cfg=cfg)
+            steps, ncalls = S.probe(sc0)
+            for g in range(8, steps, 5):
+                sc = copy.deepcopy(sc0)
+                sc['cancel'] = {'how': 'future', 'x': 0, 'gate': g}
+                jobs += S.schedules(sc, n, rng)
+            for seq in range(1, ncalls + 1):
+                sc = copy.deepcopy(sc0)
+                sc['faults'] = [{'on': 's3', 'seq': seq, 'x': 0}]
+                jobs += S.schedules(sc, n, rng)
+    return ('small-queues-with-failures', jobs)
+
+
 def fam_reenter(names, rng, n):
     jobs = []
     for name in names:
@@ -228,8 +279,18 @@ def fam_reenter(names, rng, n):
 def fam_provide(rng, n):
     jobs = []
     for name, size in (('dl-path-mp', 5), ('dl-ns-1', 3), ('copy-mp', 5),
-                       ('copy-1', 3), ('up-ns-mp', 5), ('up-ns-1', 3)):
+                       ('copy-1', 3), ('up-ns-mp', 5), ('up-ns-1', 3),
+                       ('dl-empty', 0), ('up-empty', 0)):
         sc = S.with_subs(S.base(name), [{'provide_size': size}, {}])
+        jobs += S.schedules(sc, n, rng)
+    # a pipe-like stream (short reads) whose size a subscriber provides
+    for size, reads, thr, chunk in ((5, [1], 4, 2), (7, [1, 2], 4, 2), (6, [2, 1], 4, 2),
+                                    (8, [3], 4, 2), (10, [2], 3, 3), (11, [2, 3], 4, 4),
+                                    (9, [1, 2], 3, 3)):
+        sc = {'name': 'provided-short', 'cfg': {'threshold': thr, 'chunk': chunk},
+              'transfers': [{'kind': 'upload', 'src': 'nonseekable', 'size': size,
+                             'src_reads': reads,
+                             'subs': [{'provide_size': size}, {}]}]}
         jobs += S.schedules(sc, n, rng)
     return ('provided-size', jobs)
 
@@ -273,6 +334,7 @@ def families(pid, tier, rng):
             fam_s3_faults(S.ALL, rng, per=2 * k),
             fam_env_faults([n for n in S.ALL if n not in ('up-empty', 'dl-empty')], rng, per=2 * k),
             fam_streams(['dl-path-mp', 'dl-ns-mp', 'dl-seek-1'], rng, per=1),
+            fam_failing_abort(rng, 2 * k),
         ]
     if pid == 'C04':
         return [
@@ -288,6 +350,9 @@ def families(pid, tier, rng):
             fam_systematic(['dl-path-mp', 'dl-ns-mp', 'up-path-mp', 'up-ns-mp',
                             'copy-mp', 'dl-seek-1', 'delete'] if not T else S.ALL,
                            rng, limit=None if T else 400),
+            fam_failing_abort(rng, 2 * k),
+            fam_small_queues_faults(rng, 1 * k),
+            fam_mixes(rng, 40 * k, 3, shutdown_only=True),
         ]
     if pid == 'C05':
         return [
@@ -296,6 +361,7 @@ def families(pid, tier, rng):
             fam_env_faults(S.MULTIPART, rng, per=16 * k),
             fam_cancel(S.MULTIPART, rng, ('future', 'exit-exc'),
                        stride=1, per=2 * k),
+            fam_failing_abort(rng, 3 * k),
         ]
     if pid == 'C06':
         names = ['dl-path-mp', 'dl-path-1', 'dl-empty']
@@ -349,6 +415,7 @@ def families(pid, tier, rng):
             fam_limits(S.ALL, rng, 6 * k, 3),
             fam_mixes(rng, 60 * k, 4),
             fam_contention(rng, 40 * k),
+            fam_small_queues_faults(rng, 1 * k),
         ]
     if pid == 'C11':
         return [
@@ -356,12 +423,16 @@ def families(pid, tier, rng):
             fam_mixes(rng, 60 * k, 4),
             fam_streams(['dl-ns-mp'], rng, per=1),
             fam_contention(rng, 40 * k),
+            fam_provide(rng, 3 * k),
         ]
     if pid == 'C18':
         return [
             fam_mixes(rng, 40 * k, 3, faults=True, cancels=True, fresh=True),
             fam_mixes(rng, 30 * k, 3, faults=True, shutdown_only=True),
             fam_cancel_all(rng, 60 * k),
+            fam_failing_abort(rng, 2 * k),
+            fam_cancel(['dl-path-mp', 'dl-ns-1', 'copy-mp', 'up-path-1', 'dl-seek-mp'], rng,
+                       ('future', 'exit-exc'), stride=2, per=1 * k),
         ]
     if pid == 'C12':
         return [fam_mixes(rng, 40 * k, 3, faults=True, cancels=True)]
@@ -383,10 +454,10 @@ def families(pid, tier, rng):
 CLAUSES = {
     'C01': 'C01_', 'C02': ('C02_', 'C16_'), 'C03': ('C03_', 'C05_', 'C06_'),
     'C04': 'C04_', 'C05': 'C05_',
-    'C06': 'C06_', 'C07': ('C07_', 'C05_', 'C06_'), 'C08': 'C08_', 'C09': 'C09_',
-    'C10': ('C10_', 'C11_'),
+    'C06': 'C06_', 'C07': ('C07_', 'C05_', 'C06_', 'C04_'), 'C08': 'C08_', 'C09': 'C09_',
+    'C10': ('C10_', 'C11_', 'C16_', 'C04_'),
     'C11': 'C11_', 'C12': 'C12_', 'C14': 'C14_', 'C16': 'C16_', 'C17': 'C17_',
-    'C18': ('C18_', 'C01_', 'C02_', 'C03_'),
+    'C18': ('C18_', 'C01_', 'C02_', 'C03_', 'C04_'),
 }
 
 
@@ -398,6 +469,9 @@ def known_attrs(sc, run, clause):
                     else '-1')),
         'cancel_how': (sc.get('cancel') or {}).get('how'),
         'stream_fault': bool(sc.get('streams')),
+        'kind': t0.get('kind'),
+        'fault_on': (sc.get('faults') or [{}])[0].get('on') if len(sc.get('faults') or []) == 1 else None,
+        'fault_exc': (sc.get('faults') or [{}])[0].get('exc') if len(sc.get('faults') or []) == 1 else None,
     }
 
 
